@@ -48,9 +48,9 @@ from concurrent.futures import ThreadPoolExecutor
 import core
 
 MANIFEST = dict(
-    technique="TLA+ spec over code points (Deb822Value: statement layer + transcription of validate_input, _dump_format and the iter_paragraphs reader for str and file input with both whitespace settings) model-checked by TLC; bounded-exhaustive CASE lines replayed into Deb822/Dsc; recorded assignment histories validated by TLC (TraceDeb822Value)",
-    text="TLC enumerates every value up to length 5 (quick) / 6 (thorough) over the seven symbols x : # space tab CR LF, assigns it to the first, middle and last field of a three-field paragraph and checks on the transcription of the code that an accepted value, dumped and read back by the character-level model of iter_paragraphs (str.splitlines for str input, LF-terminated lines for file input), gives exactly one paragraph with the same field names when whitespace-only lines do not separate paragraphs, and under the default setting too when no continuation line is blank (Sound); that the three defects named by the statement imply rejection and that the validator's scanner equals the declarative characterisation (RejectComplete, RejectExact); that rejection leaves the paragraph unchanged. Every CASE line (value, classification accept/blank/zone/reject, expected key list) is replayed into the real Deb822 and Dsc classes (all three positions for what is accepted, several concretizations of x, d[k]=v and update()), the dump being read back from str, io.StringIO and io.BytesIO under both settings; assignment histories recorded from the real classes on random domain text up to 40 characters (3 200 values quick / 50 000 thorough, neighbour fields holding accepted multi-line values) are validated by TLC on the concrete code points, where the reader and validator models are evaluated as well.",
-    note="Small scope: values <= 6 symbols exhaustively, longer ones sampled (traces); neighbour fields are 'x' in the model, richer in the traces. Unspecified (executed, never judged on acceptance): 'zone' = a lone CR followed by something that is not indentation (a defect only if CR ends a line; rejected today) and 'blank' = a whitespace-only continuation line (accepted today); whatever is accepted must still read back as one paragraph with the same keys. Default-setting read-back is judged only when no value of the paragraph has a blank continuation line. Characters outside the property's domain (NBSP, VT, FF, U+0085, U+2028, other Unicode whitespace) are never generated. Trusted: TLC, the projections (list(d.items()), key lists of the paragraphs read back), the concretizer. Spec-level negative controls and corrupted control traces are run in every check.",
+    technique="TLA+ spec over code points (Deb822Value: statement layer + transcription of validate_input, _dump_format and the iter_paragraphs reader for str and file input with both whitespace settings; Deb822ValueHist: history-free assignment over several live paragraphs with a process-wide memo as implementation-layer negative control) model-checked by TLC; bounded-exhaustive CASE lines and walks through the closed history LTS replayed into Deb822/Dsc/Changes/Release/BuildInfo/PdiffIndex with size-stressed concretizations; recorded multi-object assignment histories validated by TLC (TraceDeb822Value)",
+    text="TLC enumerates every value up to length 5 (quick) / 6 (thorough) over the seven symbols x : # space tab CR LF, assigns it to the first, middle and last field of a three-field paragraph and checks on the transcription of the code that an accepted value, dumped and read back by the character-level model of iter_paragraphs (str.splitlines for str input, LF-terminated lines for file input), gives exactly one paragraph with the same field names when whitespace-only lines do not separate paragraphs, and under the default setting too when no continuation line is blank (Sound); that the three defects named by the statement imply rejection and that the validator's scanner equals the declarative characterisation (RejectComplete, RejectExact); that rejection leaves the paragraph unchanged; that the classification is independent of the length of payload runs and of the number of repetitions of a continuation line (size lemmas). A second module makes the assignment a history over three live paragraphs of two kinds of class (Files validated / Files multivalued and unvalidated) plus multivalued-key assignments to throw-away objects: the reference verdict is history-free, the closed state space is explored and memoising by value, by (key, value) or leaving an empty field behind after a rejection are shown to break it. Every CASE line is replayed into the real classes (all three positions for what is accepted, several concretizations of x, d[k]=v and update(), every 8th/6th case size-stressed: payload runs up to 64 KiB, the first special character at offset 4095/4096/4097, 100/1000 continuation lines, field names up to 1024 characters, paragraphs of up to 1000 fields), walks through the history LTS are replayed on three live objects with outcome, all paragraphs and the read-back verdicts checked after every step, and assignment histories recorded from two live objects of five classes (values up to 40 characters re-used across keys, objects and classes, repeated after rejections, new keys, multivalued-key assignments in between) are validated by TLC on the concrete code points.",
+    note="Small scope: values <= 6 symbols exhaustively, longer ones sampled; the history model has 3 objects x 3 keys x 3 values (closed). Sizes beyond ~40 characters are never scanned by TLC: they are concretizations of small abstract cases whose expectation is length-independent (size lemmas checked by TLC for one duplication step up to the bound -- evidence, not proof, for longer runs). Unspecified (executed, never judged on acceptance): 'zone' = a lone CR followed by something that is not indentation (rejected today), 'blank' = a whitespace-only continuation line (accepted today), any assignment to a multivalued key of its class (not validated today); whatever is accepted on a validated key must still read back as one paragraph with the same keys. Default-setting read-back is judged only when no value of the paragraph has a blank continuation line. Characters outside the property's domain (NBSP, VT, FF, U+0085, U+2028, other Unicode whitespace) are never generated. Trusted: TLC, the projections (list(d.items()), key lists of the paragraphs read back), the concretizer. Spec-level negative controls and corrupted control traces are run in every check.",
     design="5 (C08)")
 
 X = 120
@@ -201,7 +201,7 @@ def long_key(rng, n, taken):
             n += 1
 
 
-MULTI_NAMES = {"files", "checksums-sha1", "checksums-sha256", "checksums-sha512", "checksums-md5"}
+MULTI_NAMES = {"files", "checksums-sha1", "checksums-sha256", "checksums-sha512", "checksums-md5", "md5sum", "sha1", "sha256", "sha512"}
 
 
 # ------------------------------------------------------------------ (a) CASE replay
@@ -436,6 +436,7 @@ def _rbshow(r):
 
 MODEL_KEYS = {(65,): "A", (78,): "N", (70, 105, 108, 101, 115): "F"}
 S_CLASSES = ("Dsc", "Changes")
+D_CLASSES = ("Deb822", "Deb822", "Release", "BuildInfo", "PdiffIndex")
 
 
 class HistConc:
@@ -445,7 +446,8 @@ class HistConc:
     objects and classes)"""
 
     def __init__(self, rng, values, stress):
-        self.classes = ["Deb822", rng.choice(S_CLASSES), rng.choice(S_CLASSES)]
+        # "D" of the model: a class in which Files is an ordinary, validated field
+        self.classes = [rng.choice(D_CLASSES), rng.choice(S_CLASSES), rng.choice(S_CLASSES)]
         taken = set()
         klen = heavy(rng, KEY_LENS) if (stress and rng.random() < 0.3) else 0
         names = rng.sample(KEY_POOL, 2)
@@ -679,8 +681,10 @@ def simple_value(rng):
         return "".join(pick_x(rng) for _ in range(rng.randint(1, 4)))
     if r < 0.7:
         return ""
-    if r < 0.85:
+    if r < 0.82:
         return pick_x(rng) + "\n " + pick_x(rng) + "\n\t" + pick_x(rng) + ": " + pick_x(rng)
+    if r < 0.90:                                        # looks like PGP armor, but is a continuation line
+        return pick_x(rng) + "\n" + rng.choice([" ", "\t", "  "]) + rng.choice(["-----BEGIN PGP SIGNATURE-----", "-----END PGP SIGNATURE-----", "-----BEGIN PGP SIGNED MESSAGE-----"]) + "\n " + pick_x(rng)
     return "\n " + pick_x(rng) + " #" + pick_x(rng)
 
 
@@ -708,8 +712,15 @@ NO_RB = {"o": [], "ix": {n: 0 for n in RBNAMES}}
 
 
 
-TRACE_CLASSES = ("Deb822", "Dsc", "Changes")
-SCRATCH_KEYS = ("Files", "files", "Checksums-Sha1", "Checksums-Sha256")
+TRACE_CLASSES = ("Deb822", "Dsc", "Changes", "BuildInfo", "Release")
+# _multivalued_fields of the classes (lower case): not validated there, ordinary fields elsewhere
+MULTI = {"Deb822": (), "Dsc": ("files", "checksums-sha1", "checksums-sha256", "checksums-sha512"),
+         "Changes": ("files", "checksums-sha1", "checksums-sha256", "checksums-sha512"),
+         "BuildInfo": ("checksums-md5", "checksums-sha1", "checksums-sha256", "checksums-sha512"),
+         "Release": ("md5sum", "sha1", "sha256", "sha512")}
+SPELL = {"files": "Files", "checksums-sha1": "Checksums-Sha1", "checksums-sha256": "Checksums-Sha256",
+         "checksums-sha512": "Checksums-Sha512", "checksums-md5": "Checksums-Md5", "md5sum": "MD5Sum",
+         "sha1": "SHA1", "sha256": "SHA256", "sha512": "SHA512"}
 LONG_KEYS = ["X-" + "k" * 31, "Y" * 32, "Z-" + "q" * 62, "W" * 65]          # 33, 32, 64, 65 characters
 
 
@@ -755,13 +766,13 @@ def record_trace(rng, nev, script=None):
                     v = gen_value(rng)
                 if obj == 0:
                     clsname = rng.choice(TRACE_CLASSES[1:])
-                    key = rng.choice(SCRATCH_KEYS)
-                else:
+                    key = SPELL[rng.choice(MULTI[clsname])]                    # the usual spelling: the same
+                else:                                                          # name is used on other classes
                     clsname = classes[obj - 1]
                     present = [k for k in objs[obj - 1]]
-                    if len(present) < 5 and rng.random() < 0.3:
-                        cand = [k for k in KEY_POOL + LONG_KEYS[:2] + ["Files"] if k not in present
-                                and not (clsname != "Deb822" and k.lower() in MULTI_NAMES)]
+                    if len(present) < 5 and rng.random() < 0.35:
+                        cand = [k for k in KEY_POOL + LONG_KEYS[:2] + ["Files", "Files", "Checksums-Md5", "SHA256", "Checksums-Sha1"]
+                                if k not in present and k.lower() not in MULTI[clsname]]
                         key = rng.choice(cand)
                     else:
                         key = rng.choice(present)
